@@ -2,3 +2,50 @@
 
 // Contracts for package serializers, read by /verif/govc (comment-only file).
 package serializers
+
+// ---------------------------------------------------------------------------
+// C07: serializers are total on arbitrary documents; C11: they only read them
+// ---------------------------------------------------------------------------
+
+//@ func SPDX23.Serialize
+//@   props C07, C11
+//@   assigns \nothing
+
+// Render is handed what Serialize of the same driver returned (writer protocol)
+//@ func SPDX23.Render
+//@   props C07
+//@   requires o != nil && typeis(doc, *v2_3.Document)
+//@   assigns \nothing
+
+//@ func CDX.Serialize
+//@   props C07, C11
+//@   assigns \nothing
+//@   invariant L0: doc != nil && rootfresh(doc) && doc.Metadata != nil && rootfresh(doc.Metadata) && doc.Metadata.Lifecycles != nil && rootfresh(doc.Metadata.Lifecycles) && (arr(*doc.Metadata.Lifecycles) == nil || rootfresh(arr(*doc.Metadata.Lifecycles)))
+
+//@ func CDX.Render
+//@   props C07
+//@   requires o != nil
+//@   assigns \nothing
+
+//@ func clearAutoRefs
+//@   props C07
+//@   requires comps != nil
+//@   assigns anyelems(cyclonedx.Component)
+
+// the per-call serializer state: every component in the dictionary was built
+// by this call (fresh), and so are the sub-component lists hanging off them
+//@ pred cdxStateOK(s *serializerCDXState) = s != nil && rootfresh(s) && s.addedDict != nil && s.componentsDict != nil && rootfresh(s.addedDict) && rootfresh(s.componentsDict) && (forall k string :: (k in s.componentsDict) ==> s.componentsDict[k] != nil && rootfresh(s.componentsDict[k]) && (s.componentsDict[k].Components == nil || (rootfresh(s.componentsDict[k].Components) && (arr(*s.componentsDict[k].Components) == nil || rootfresh(arr(*s.componentsDict[k].Components))))))
+
+//@ func CDX.componentsMaps
+//@   inline
+//@   invariant L0: cdxStateOK(state)
+
+//@ func CDX.dependencies
+//@   inline
+//@   invariant L0: cdxStateOK(state)
+//@   invariant L1: cdxStateOK(state)
+//@   invariant L2: cdxStateOK(state)
+
+//@ func serializerCDXState.components
+//@   inline
+//@   invariant L0: cdxStateOK(s)
